@@ -113,7 +113,8 @@ class Hist:
     def ephemeral(self, author=None):
         r = self.rng
         ev = evgen.make(r.choice(self.authors) if author is None else author,
-                        kind=r.choice(KINDS_EPH), created_at=ts(r), tags=self.some_tags(2), content="eph")
+                        kind=r.choice(KINDS_EPH), created_at=ts(r), tags=self.some_tags(2),
+                        content="eph%d" % len(self.events))
         self.events.append(ev)
         return ev
 
